@@ -490,6 +490,9 @@ struct Rw<'a> {
     closures: Vec<(usize, usize, usize, bool)>, // (end of `|params|`, body start, body end, body is a block)
     /// T2.alias: `let x = this.f;` (f a projected, un-pinned field: x is just `&mut self.f`) is inlined
     aliases: HashMap<String, String>,
+    /// T16: depth of loop nesting below the function's tail `loop` (0 = not inside it)
+    tail_loop_depth: usize,
+    tail_loop_start: Option<usize>,
 }
 
 fn path_is(p: &syn::Path, segs: &[&str]) -> bool {
@@ -529,6 +532,18 @@ impl<'a> Rw<'a> {
             }
             syn::Expr::Paren(p) => self.recv_kind(&p.expr),
             _ => "other",
+        }
+    }
+
+    fn visit_expr_closure_inner(&mut self, e: &syn::Expr) {
+        if let syn::Expr::Closure(c) = e {
+            let b = self.r(c.body.span());
+            let hdr_end = match &c.output {
+                syn::ReturnType::Type(_, t) => self.r(t.span()).1,
+                syn::ReturnType::Default => self.r(c.or2_token.span()).1,
+            };
+            self.closures.push((hdr_end, b.0, b.1, matches!(&*c.body, syn::Expr::Block(_))));
+            visit::visit_expr(self, e);
         }
     }
 
@@ -767,18 +782,39 @@ impl<'a, 'ast> Visit<'ast> for Rw<'a> {
             }
             syn::Expr::Loop(l) => {
                 let b = &l.body;
-                self.loops.push((self.r(b.brace_token.span.open()).0, self.r(b.brace_token.span.close()).0, self.r(l.span()).0));
+                let st = self.r(l.span()).0;
+                self.loops.push((self.r(b.brace_token.span.open()).0, self.r(b.brace_token.span.close()).0, st));
+                let is_tail = self.tail_loop_start == Some(st);
+                if is_tail { self.tail_loop_depth = 1; } else if self.tail_loop_depth > 0 { self.tail_loop_depth += 1; }
                 visit::visit_expr(self, e);
+                if is_tail { self.tail_loop_depth = 0; } else if self.tail_loop_depth > 0 { self.tail_loop_depth -= 1; }
             }
             syn::Expr::While(l) => {
                 let b = &l.body;
                 self.loops.push((self.r(b.brace_token.span.open()).0, self.r(b.brace_token.span.close()).0, self.r(l.span()).0));
+                if self.tail_loop_depth > 0 { self.tail_loop_depth += 1; }
                 visit::visit_expr(self, e);
+                if self.tail_loop_depth > 0 { self.tail_loop_depth -= 1; }
             }
             syn::Expr::ForLoop(l) => {
                 let b = &l.body;
                 self.loops.push((self.r(b.brace_token.span.open()).0, self.r(b.brace_token.span.close()).0, self.r(l.span()).0));
+                if self.tail_loop_depth > 0 { self.tail_loop_depth += 1; }
                 visit::visit_expr(self, e);
+                if self.tail_loop_depth > 0 { self.tail_loop_depth -= 1; }
+            }
+            syn::Expr::Break(b) if b.expr.is_some() && b.label.is_none() && self.tail_loop_depth == 1 => {
+                // T16: `break v` out of the loop that is the function's tail expression == `return v`
+                self.fire("T16.tail_loop_break");
+                self.ed.replace(self.r(b.break_token.span()), "return", "T16.tail_loop_break");
+                self.returns.push(self.r(b.span()));
+                visit::visit_expr(self, e);
+            }
+            syn::Expr::Closure(_) if self.tail_loop_depth > 0 => {
+                let d = self.tail_loop_depth;
+                self.tail_loop_depth = 0;
+                self.visit_expr_closure_inner(e);
+                self.tail_loop_depth = d;
             }
             syn::Expr::Call(c) => {
                 if let syn::Expr::Path(fp) = &*c.func {
@@ -1136,6 +1172,8 @@ fn new_rw<'a>(src: &'a Src, facts: &'a Facts) -> Rw<'a> {
         stmt_stack: vec![],
         closures: vec![],
         aliases: HashMap::new(),
+        tail_loop_depth: 0,
+        tail_loop_start: None,
     }
 }
 
@@ -1186,6 +1224,9 @@ fn emit_fn(src: &Src, facts: &Facts, spec: &FnSpec, vspec_name: &str, out: &mut 
 
     // ---- body
     if spec.mode == "verify" {
+        if let Some(syn::Stmt::Expr(syn::Expr::Loop(l), None)) = loc.block.stmts.last() {
+            rw.tail_loop_start = Some(src.range(l.span()).0);
+        }
         rw.visit_block(loc.block);
     }
     if !rw.errors.is_empty() {
